@@ -74,11 +74,26 @@ theorem parse_total (cfg : Cfg) (bs : Bytes) : parseUpdate cfg bs ≠ .panic := 
 
 /-! ### accessors are total -/
 
+/-- The one panic-capable operation on the `to_owned()` path of an attribute
+(path_attributes.rs:600 → `AsPath::new(..)?.to_hop_path()` → `PathSegments::
+next_asns`, whose two `expect`s assume an `AsPath::check`ed octet string):
+the hop reading of an AS_PATH (session's ASN width) / AS4_PATH (always four
+octets) value.  `Rc.Attr.parseValue` / `toOwned` turn every non-`ok` of it
+into `.err`, so `toOwned .. ≠ .panic` alone is true of ANY wire attribute by
+the shape of that definition; THIS is the operation the clause is about
+(`AsPath.hops true [2, 3, 0, 0, 0, 1] = .panic`: it does panic on an unchecked
+value). Every other step of `parseValue` is a bounds-checked parser read
+(`rd8/rd16/rd32/takeN/chunkO/dec32O`: `Option` / `.err`, no panic branch). -/
+def ownedHops (four : Bool) : Wire → Outcome AsPath.HopPath
+  | .typed _ code v => if code = 2 then AsPath.hops four v else if code = 17 then AsPath.hops true v else .ok []
+  | _ => .ok []
+
 /-- what "no accessor panics" means, accessor group by accessor group (the
 groups are the ones the correspondence check observes) -/
 structure NoPanics (m : Msg) : Prop where
   pcap : m.pcap ≠ .panic
-  pathAttributes : ∀ x ∈ m.pathAttributes.1, x ≠ .panic ∧ ∀ w, x = .ok w → toOwned m.ppi.four w ≠ .panic
+  pathAttributes : ∀ x ∈ m.pathAttributes.1, x ≠ .panic ∧
+    ∀ w, x = .ok w → ownedHops m.ppi.four w ≠ .panic ∧ toOwned m.ppi.four w ≠ .panic
   convWd : ∀ x ∈ m.convWd.1, x ≠ .panic
   convAnn : ∀ x ∈ m.convAnn.1, x ≠ .panic
   mpWd : m.mpWd ≠ .panic ∧ ∀ ty bs, m.mpWd = .ok (some (ty, bs)) → ∀ x ∈ (enumItems ty bs).1, x ≠ .panic
@@ -171,6 +186,18 @@ private theorem asPathOf_noPanic (four : Bool) (v : Bytes) : asPathOf four v ≠
     simp [hh]
   · simp
 
+/-- `PathSegments::next_asns`' `expect`s cannot fire on a value `AsPath::check` accepted -/
+private theorem hops_checked_noPanic (four : Bool) (v : Bytes) (hp : pathValid four v = true) :
+    AsPath.hops four v ≠ .panic := by
+  have hc : AsPath.check four v = .ok () := by
+    unfold pathValid at hp
+    cases hcv : AsPath.check four v with
+    | ok u => cases u; rfl
+    | err => simp [hcv] at hp
+    | panic => simp [hcv] at hp
+  obtain ⟨ss, _, _, _, hh, _⟩ := AsPath.wire_view four v hc
+  simp [hh]
+
 private theorem mapO_noPanic {α β : Type} (g : α → β) (x : Outcome α) (h : x ≠ .panic) : mapO g x ≠ .panic :=
   mapO_ne_panic g x h
 
@@ -245,10 +272,28 @@ theorem accessors_total (cfg : Cfg) (bs : Bytes) (m : Msg) (h : parseUpdate cfg 
     intro x hx
     have := pa_collect_ok m.ppi.four _ _ x hx
     refine ⟨by intro hp; subst hp; exact this, ?_⟩
-    intro w _
-    unfold toOwned
-    repeat' split
-    all_goals simp
+    intro w hw
+    subst hw
+    refine ⟨?_, ?_⟩
+    · -- the hop reading: guarded by the `validate` (= `AsPath::check`) the iterator ran
+      cases w with
+      | typed fl code v =>
+        have hv : validate code m.ppi.four v = some true := this
+        simp only [ownedHops]
+        split
+        · rename_i h2; subst h2
+          have hp : pathValid m.ppi.four v = true := by simpa [validate] using hv
+          exact hops_checked_noPanic _ _ hp
+        · split
+          · rename_i _ h17; subst h17
+            have hp : pathValid true v = true := by simpa [validate] using hv
+            exact hops_checked_noPanic _ _ hp
+          · simp
+      | unimplemented _ _ _ => simp [ownedHops]
+      | invalid _ _ _ => simp [ownedHops]
+    · unfold toOwned
+      repeat' split
+      all_goals simp
   · intro ty bs _; exact (enumItems_spec ty bs).2.2.2
   · intro ty bs _; exact (enumItems_spec ty bs).2.2.2
   · -- withdrawals
@@ -605,12 +650,21 @@ theorem errLast_spec {α : Type} : ∀ (l pre post : List (Outcome α)) (x : Out
       | nil => trivial
       | cons y t => rw [hps] at hl; exact hl.2
 
-/-- the attribute iterator of an accepted message yields no `Err` item at all:
-the TLV structure was walked at parse time and does not depend on the ASN width -/
+/-- the parse-time walk of the attribute section succeeded (what `parseUpdate` checked) -/
 theorem attrs_no_err (cfg : Cfg) (bs : Bytes) (m : Msg) (h : parseUpdate cfg bs = .ok m) :
     attrsWalk m.attrs.length m.attrs = .ok () := by
   obtain ⟨_, _, _, _, _, _, _, _, _, _, _, _, _, _, _, _, _, _, _, _, hw, _⟩ := parseUpdate_ok h
   exact hw
+
+/-- **attrs_all_ok.** The attribute iterator `path_attributes()` of an accepted
+message yields no `Err` item at all (so "an item-level error is the last item"
+holds of it trivially, although the iterator is not fused): the TLV structure
+was walked at parse time, and where the walk finds a complete TLV the iterator
+yields an `Ok` item and continues after it, whatever the ASN width of the
+session (`pa_collect_all_ok`). -/
+theorem attrs_all_ok (cfg : Cfg) (bs : Bytes) (m : Msg) (h : parseUpdate cfg bs = .ok m) :
+    ∀ x ∈ m.pathAttributes.1, ∃ w, x = .ok w :=
+  pa_collect_all_ok m.ppi.four _ _ m.attrs (attrs_no_err cfg bs m h)
 
 /-! ### the all-or-nothing accessors agree with the iterators -/
 
@@ -681,6 +735,11 @@ example : (parseUpdate ⟨true, []⟩
     (List.replicate 16 0xff ++ [0, 25, 2, 0, 0, 0, 0, 8, 10])).isOk = true := by decide
 example : (parseUpdate ⟨false, [((1, 1), .both)]⟩
     (List.replicate 16 0xff ++ [0, 23, 2, 0, 0, 0, 0])).isOk = true := by decide
+/-- the `ownedHops` conjunct of `NoPanics.pathAttributes` is not true by construction: on a
+value that was not checked (segment of 3 ASNs announced, 4 octets present) the hop reading
+panics, and `toOwned` hides that as `.err` -/
+example : ownedHops true (.typed 0x40 2 [2, 3, 0, 0, 0, 1]) = .panic := by decide
+example : Attr.toOwned true (.typed 0x40 2 [2, 3, 0, 0, 0, 1]) = .err := by decide
 /-- and a message is rejected, not panicked on, when a length field lies -/
 example : (parseUpdate ⟨true, []⟩ (List.replicate 16 0xff ++ [0, 25, 2, 0, 9, 0, 0, 8, 10])).isOk = false := by decide
 
